@@ -356,6 +356,37 @@ func init() {
 		}
 		return "ok " + hx(buf.String())
 	}
+	// cmarshalnil type: nil in the place of a value - a nil *T, the untyped nil, a slice holding a nil *T - through Marshal,
+	// Encoder.Encode and ConvertToParagraph: "marshalling a supported type never panics" - each call answers with an error
+	ops["cmarshalnil"] = func(a []string) string {
+		z, ok := probe.Types[arg(a, 0)]
+		if !ok {
+			return "no-such-type"
+		}
+		nilPtr := reflect.Zero(reflect.PtrTo(reflect.TypeOf(z))).Interface()
+		sl := reflect.MakeSlice(reflect.SliceOf(reflect.PtrTo(reflect.TypeOf(z))), 1, 1).Interface()
+		one := func(f func() error) (r string) {
+			defer func() {
+				if recover() != nil {
+					r = "panic"
+				}
+			}()
+			if f() != nil {
+				return "err"
+			}
+			return "ok"
+		}
+		var buf bytes.Buffer
+		enc, _ := control.NewEncoder(&buf)
+		return strings.Join([]string{
+			one(func() error { return control.Marshal(&buf, nilPtr) }),
+			one(func() error { return control.Marshal(&buf, nil) }),
+			one(func() error { return enc.Encode(nilPtr) }),
+			one(func() error { _, err := control.ConvertToParagraph(nilPtr); return err }),
+			one(func() error { _, err := control.ConvertToParagraph(nil); return err }),
+			one(func() error { return control.Marshal(&buf, sl) }),
+		}, " ") + " written=" + strconv.Itoa(buf.Len())
+	}
 	// what the struct holds right after buildStruct: lets the driver check its own argument conventions
 	ops["cshow"] = func(a []string) string {
 		v, ok := buildStruct(a)
@@ -364,8 +395,13 @@ func init() {
 		}
 		return "ok " + showRecord(v.Elem())
 	}
+	// tcontrol text [bufsize]: ParseControl takes a *bufio.Reader - the caller's, of whatever buffer size (bufio.NewReaderSize)
 	ops["tcontrol"] = func(a []string) string {
-		c, err := control.ParseControl(bufio.NewReader(strings.NewReader(arg(a, 0))), "")
+		rd := bufio.NewReader(strings.NewReader(arg(a, 0)))
+		if n, err := strconv.Atoi(arg(a, 1)); err == nil && n > 0 {
+			rd = bufio.NewReaderSize(strings.NewReader(arg(a, 0)), n)
+		}
+		c, err := control.ParseControl(rd, "")
 		if err != nil {
 			if c != nil {
 				return "err-with-value"
@@ -380,6 +416,9 @@ func init() {
 	}
 	ops["tindex"] = func(a []string) string {
 		rd := bufio.NewReader(strings.NewReader(arg(a, 1)))
+		if n, err := strconv.Atoi(arg(a, 2)); err == nil && n > 0 {
+			rd = bufio.NewReaderSize(strings.NewReader(arg(a, 1)), n)
+		}
 		items := []string{}
 		switch arg(a, 0) {
 		case "binary_index":
@@ -698,6 +737,8 @@ func init() {
 					seen[f.Name] = true
 				}
 				if f.Anonymous && top {
+					// the Go name of an embedded member ("Paragraph") is no key of the document either
+					seen[f.Name] = true
 					walk(f.Type, depth+1, f.Type.Name() != "Paragraph")
 					continue
 				}
